@@ -53,7 +53,12 @@ def dur_spelling(rng):
         tparts.append("%dM" % mi); val += mi * 60000
     if rng.random() < 0.6:
         s = rng.randint(0, 4000000 if big else 90)
-        tparts.append("%dS" % s); val += s * 1000
+        if rng.random() < 0.3:
+            # a decimal fraction of the seconds: milliseconds
+            f = rng.choice(["5", "05", "005", "123", "999", "50", "500", "1", "%03d" % rng.randint(0, 999)])
+            tparts.append("%d.%sS" % (s, f)); val += s * 1000 + int((f + "00")[:3])
+        else:
+            tparts.append("%dS" % s); val += s * 1000
     if not parts and not tparts:
         parts.append("0D")
     txt = "P" + "".join(parts) + ("T" + "".join(tparts) if tparts else "")
@@ -98,6 +103,8 @@ def run(ctx):
             v = rng.choice([0, 1000, 59000, 60000, 3599000, 3600000, MSD - 1000, MSD, MSD + 1000, 2 ** 32 // 1000 * 1000,
                             (2 ** 32 // 1000 + 1) * 1000, 49 * MSD, 50 * MSD, 9 * MSD, 10 * MSD, 99 * MSD, 100 * MSD,
                             999 * MSD, 1000 * MSD])
+        if rng.random() < 0.4:
+            v += rng.choice([1, 5, 50, 500, 999, rng.randint(1, 999)])       # milliseconds
         if rng.random() < 0.15:
             v = -v
         durs.append(v)
@@ -195,8 +202,7 @@ def run(ctx):
         "impl_vs_model_differences": len(corr),
         "exhaustive": False,
     })
-    ctx.assumptions += ["durations are whole seconds (the text form has no sub-second part)",
-                        "the iCalendar form has second resolution: milliseconds are not expected to survive it"]
+    ctx.assumptions += ["the iCalendar form of an instant has second resolution: milliseconds are not expected to survive it"]
     if (st1 != "ok" or st2 != "ok") and not fails and not corr:
         ctx.violation("correspondence", "harness ended with %s/%s: %s" % (st1, st2, (err1 + err2)[-400:]),
                       {"stderr": err1 + err2}, found_input=False)
